@@ -59,4 +59,29 @@ func VerifC10Stress() {
 		verifAssert(ok, "C10.same/text")
 		verifAssert(verifQuiesce() == 0, "C10.noleak")
 	}
+	// blocks larger than a bufio.Writer's buffer: 60 roots, each with a child whose name has 5000 bytes
+	var big strings.Builder
+	const bigRoots = 60
+	for i := 0; i < bigRoots; i++ {
+		big.WriteString("- r" + c09Itoa(i) + "\n  - " + strings.Repeat(string(rune('a'+i%26)), 5000) + c09Itoa(i) + "\n  - z" + c09Itoa(i) + "\n")
+	}
+	for try := 0; try < 5; try++ {
+		w := &c10SafeWriter{}
+		err := OutputFromMarkdown(w, strings.NewReader(big.String()), WithMassive(context.Background()))
+		verifAssert(err == nil, "C10.big.nil")
+		ls := strings.Split(strings.Join(w.lines, ""), "\n")
+		ok := len(ls) == 3*bigRoots+1
+		for i := 0; ok && i+2 < len(ls); i += 3 {
+			root := ls[i]
+			if !strings.HasPrefix(root, "r") {
+				ok = false
+				break
+			}
+			n := root[1:]
+			if !strings.HasSuffix(ls[i+1], "a"+n) && !strings.HasSuffix(ls[i+1], n) || len(ls[i+1]) < 5000 || !strings.HasSuffix(ls[i+2], " z"+n) {
+				ok = false
+			}
+		}
+		verifAssert(ok, "C10.big.same")
+	}
 }
